@@ -1,6 +1,101 @@
-"""C09 - Joliet fidelity (DESIGN.md section 4): MASTER-ENUM histories + growth chains with the oracles.oracle_joliet oracle."""
-from mc import master, ops, oracles
+"""C09 - Joliet fidelity (DESIGN.md section 4): MASTER-ENUM histories with the Joliet oracle + a complete sweep of Unicode names."""
+import itertools
+
+from mc import explore, master, ops, oracles
+from mc.framework import Result
 from mc.props import _std
 
+SIGMA_J = ['a', 'A', 'ä', 'é', '中', '�', '\U0001f600', ' ', '.', ';']
+
+
+def names(tier):
+    out = []
+    for n in range(1, (4 if tier == 'thorough' else 3) + 1):
+        for t in itertools.product(SIGMA_J, repeat=n):
+            out.append(''.join(t))
+    for ch in ('a', 'ä', '中', '\U0001f600', '.'):
+        for n in (31, 32, 33, 62, 63, 64, 65, 66, 103, 110, 111):
+            out.append(ch * n)
+            out.append('x' + ch * (n - 1))
+    return out
+
+
+def extra_tasks(tier):
+    ns = names(tier)
+    out = []
+    for jl in (1, 2, 3):
+        cfg = ops.mk(3, joliet=jl)
+        for i in range(6):
+            out.append({'extra': True, 'cfg': cfg, 'names': ns[i::6]})
+    cfg = ops.mk(1, joliet=3, rr='1.09')
+    out.append({'extra': True, 'cfg': cfg, 'names': ns[::7]})
+    return out
+
+
+ORACLES = [oracles.oracle_joliet, master.oracle_roundtrip]
+
+
+def steps_for(cfg, name, is_dir):
+    rr = {'rr_name': 'n'} if cfg.get('rr') else {}
+    if is_dir:
+        return [[['add_directory', dict({'iso_path': '/N', 'joliet_path': '/' + name}, **rr)]],
+                [['add_fp', dict({'content': 'c1', 'iso_path': '/N/F.;1', 'joliet_path': '/' + name + '/f'}, **({'rr_name': 'f'} if cfg.get('rr') else {}))]]]
+    return [[['add_fp', dict({'content': 'c2049', 'iso_path': '/N.;1', 'joliet_path': '/' + name}, **rr)]],
+            [['add_fp', {'content': 'c1', 'joliet_path': '/zz'}]]]
+
+
+def extra_run(task):
+    res = Result()
+    cfg = task['cfg']
+    for name in task['names']:
+        if '/' in name or name in ('.', '..'):
+            continue
+        for is_dir in (False, True):
+            case = {'extra': True, 'cfg': cfg, 'steps': steps_for(cfg, name, is_dir)}
+            try:
+                status, viols, info = master.evaluate(case, ORACLES, res)
+            except Exception as e:
+                # the reference model refuses the name (e.g. longer than 64 units): the implementation must refuse as well
+                status, viols, info = 'model-refused', [], None
+                impl, info2 = explore.run_history(cfg, case['steps'][:1])
+                if impl is not None:
+                    res.violation('names Joliet cannot hold are refused', 'accepted', 'Joliet name %r (%d units) accepted' % (name[:20], len(name.encode('utf-16_be')) // 2), case)
+                elif not info2['refused']:
+                    t, site = explore.exc_site(info2['exc'])
+                    res.violation('names Joliet cannot hold are refused with the invalid-input error', '%s@%s' % (t, site), 'Joliet name %r: %s' % (name[:20], info2['exc']), case)
+            res.count('name_sweep_cases')
+            res.count('name_sweep_' + status.replace('-', '_'))
+            if status == 'crash':
+                t, site = explore.exc_site(info['exc'])
+                res.violation('a name is accepted or refused with the invalid-input error', '%s@%s' % (t, site), 'Joliet name %r: %s' % (name[:20], info['exc']), case)
+            for v in viols:
+                res.violation(v['clause'], v['cls'], v['msg'], case)
+    return res
+
+
+def check_extra(case):
+    try:
+        status, viols, info = master.evaluate(case, ORACLES)
+    except Exception:
+        impl, info2 = explore.run_history(case['cfg'], case['steps'][:1])
+        if impl is not None:
+            return [{'clause': 'names Joliet cannot hold are refused', 'cls': 'accepted', 'msg': 'accepted'}]
+        if not info2['refused']:
+            t, site = explore.exc_site(info2['exc'])
+            return [{'clause': 'names Joliet cannot hold are refused with the invalid-input error', 'cls': '%s@%s' % (t, site), 'msg': str(info2['exc'])}]
+        return []
+    if status == 'crash':
+        t, site = explore.exc_site(info['exc'])
+        return [{'clause': 'a name is accepted or refused with the invalid-input error', 'cls': '%s@%s' % (t, site), 'msg': str(info['exc'])}]
+    return viols
+
+
+def coverage_extra(tier, r):
+    return dict((k, v) for k, v in r.n.items() if k.startswith('name_sweep'))
+
+
 _std.install(globals(), 'C09', 'model_checking', [oracles.oracle_joliet], _std.default_bounds(),
-             ['independent decoder r119 (UTF-16BE) is trusted base'] + ['alphabet sigma1 of mc/ops.py and the depth bounds listed in the evidence'])
+             ['independent decoder r119 (UTF-16BE) is trusted base',
+              'name sweep: every name of length 1..3 (4) over %d characters (BMP, non-BMP, space, dot, semicolon) and length families 31..111 units, as file and directory, Joliet levels 1-3' % len(SIGMA_J),
+              'alphabet sigma1 of mc/ops.py and the depth bounds listed in the evidence'],
+             extra_tasks=extra_tasks, extra_run=extra_run)
